@@ -720,6 +720,18 @@ def add_mol_cases(batch, name, mol, sample=False):
         return None
     if centers:
         ctx.dist('cis-trans-molecules')
+        try:
+            own = mol._stereo_cis_trans_centers
+        except Exception:
+            own = {}
+        oreq = [len(own)] + [v for k, (p, q) in own.items() for v in (k, p, q)]
+
+        def c_cok(res):
+            ctx.dist('centersOKb=%s' % (res[1][0] if res[0] == 'ok' else res))
+            if lim and res != ('ok', [1]):
+                return f'hypothesis CentersOK of the stereo round-trip theorem does not hold for the real centers dictionary [{name}]: {res}'
+            return None
+        batch.add('centers-hypothesis', 'cok', oreq + req, c_cok, nt)
     batch.add('unpack+attach', 'unpacka', creq + data, c_unpacka, nt)
 
     try:
